@@ -16,6 +16,11 @@
      6 requested_missing        a connection was started without requested
      7 established_missing      a connection event took place and the connection is still not reported as established
      8 fault                    assert / sanitizer abort
+     9 closed_reason            the reason of closed is none of the causes the trace shows for the end of THIS connection:
+                                0x08 (supervision timeout, invalid update at its instant) resp. the reason of disconnect() /
+                                0x16 after disconnect() was called; 0x22 if a procedure response timer may run; in a
+                                connection event also 0x28 if an instant based PDU was delivered and the error code of a
+                                delivered LL_TERMINATE_IND
    Completeness clauses (3 at the end of the link, 6, 7) only apply to configurations with connection_callbacks<>. *)
 From Coq Require Import NArith List Bool.
 From BT Require Import Base.ListX LL.LLModel LL.LLSpec.
@@ -25,13 +30,50 @@ Local Open Scope N_scope.
 
 Inductive phase29 := LIdle | LRequested | LEstablished.
 
+(* Why the current connection may end, as far as the trace shows (all of it per connection):
+     w_base   the reason of an end without a cause of its own: 0x08 (supervision timeout; also a connection update that turns
+              out to be invalid at its instant), or the reason handed to disconnect() / 0x16 once disconnect() was called
+     w_arm    a procedure response timer may run (disconnect(), connection_parameter_update_request(),
+              initiating_connection_parameter_request(), remote_versions_request() were called): 0x22 is possible
+     w_inst   an instant based control PDU (LL_CONNECTION_UPDATE_IND, LL_CHANNEL_MAP_IND, LL_PHY_UPDATE_IND) was delivered: 0x28
+     w_terms  the error codes of the LL_TERMINATE_IND PDUs delivered
+     w_rx     the current operation is a connection event (only then received PDUs are looked at) *)
+Record why29 := mkw { w_base : N; w_arm : bool; w_inst : bool; w_terms : list N; w_rx : bool }.
+
 Record mon29 := mk29 {
   l_phase : phase29;
   l_closed : bool;        (* the last connection was reported as closed / timed out and no new one was requested since *)
-  l_link : bool           (* the link layer runs a connection (between its start and the return to advertising) *)
+  l_link : bool;          (* the link layer runs a connection (between its start and the return to advertising) *)
+  l_why : why29
 }.
 
-Definition minit29 (c : cfg) : mon29 := mk29 LIdle false false.
+(* specification constants (Core Vol 1 Part F): connection timeout, remote user / local host terminated, LL response
+   timeout, instant passed *)
+Definition fresh_why : why29 := mkw 8 false false [] false.
+Definition minit29 (c : cfg) : mon29 := mk29 LIdle false false fresh_why.
+
+(* the reasons ll_connection_closed may report now *)
+Definition adm (w : why29) (r : N) : bool :=
+  (r =? w_base w) || (w_arm w && (r =? 34))
+  || (w_rx w && ((w_inst w && (r =? 40)) || existsb (N.eqb r) (w_terms w))).
+
+Definition ctrl_pdu (p : pdu) : bool := N.land (fst p) 3 =? 3.
+Definition inst_body (b : list N) : bool :=
+  match b with o :: _ => (o =? 0) || (o =? 1) || (o =? 24) | [] => false end.
+Definition term_codes (p : pdu) : list N :=
+  if ctrl_pdu p then match snd p with [2; x] => [x] | _ => [] end else [].
+
+(* what an operation adds to that knowledge, before its callbacks are judged *)
+Definition why_op (w : why29) (o : lop) : why29 :=
+  match o with
+  | Ev _ pdus =>
+      mkw (w_base w) (w_arm w) (w_inst w || existsb (fun p => ctrl_pdu p && inst_body (snd p)) pdus)
+          (w_terms w ++ flat_map term_codes pdus) true
+  | Disconnect reason => mkw (match reason with Some r => r | None => 22 end) true (w_inst w) (w_terms w) false
+  | Cpu _ _ _ _ | Cpr _ _ _ _ | VerReq => mkw (w_base w) true (w_inst w) (w_terms w) false
+  | _ => mkw (w_base w) (w_arm w) (w_inst w) (w_terms w) false
+  end.
+Definition set_why (m : mon29) (w : why29) : mon29 := mk29 (l_phase m) (l_closed m) (l_link m) w.
 
 (* one callback *)
 Definition cb29 (m : mon29) (e : cb_event) : verdict * mon29 :=
@@ -39,24 +81,24 @@ Definition cb29 (m : mon29) (e : cb_event) : verdict * mon29 :=
   | EvCpr _ _ _ _ => (Ok, m)
   | EvRequested _ =>
       match l_phase m with
-      | LIdle => (Ok, mk29 LRequested false (l_link m))
+      | LIdle => (Ok, mk29 LRequested false (l_link m) (l_why m))
       | _ => (Bad 3, m)
       end
   | EvEstablished _ =>
       match l_phase m with
-      | LRequested => (Ok, mk29 LEstablished false (l_link m))
+      | LRequested => (Ok, mk29 LEstablished false (l_link m) (l_why m))
       | LEstablished => (Bad 2, m)
       | LIdle => (Bad 4, m)
       end
   | EvAttemptTimeout =>
       match l_phase m with
-      | LRequested => (Ok, mk29 LIdle true (l_link m))
+      | LRequested => (Ok, mk29 LIdle true (l_link m) (l_why m))
       | LEstablished => (Bad 5, m)
       | LIdle => (Bad (if l_closed m then 2 else 4), m)
       end
-  | EvClosed _ =>
+  | EvClosed r =>
       match l_phase m with
-      | LEstablished => (Ok, mk29 LIdle true (l_link m))
+      | LEstablished => if adm (l_why m) r then (Ok, mk29 LIdle true (l_link m) (l_why m)) else (Bad 9, m)
       | LRequested => (Bad 1, m)
       | LIdle => (Bad (if l_closed m then 2 else 4), m)
       end
@@ -85,7 +127,7 @@ Definition mstep29 (c : cfg) (m : mon29) (o : lop) (r : lout) : verdict * mon29 
   | OCrash => (Bad 8, m)
   | OPre | OBadOp => (Ok, m)
   | OItems it =>
-      match fold29 m it with
+      match fold29 (set_why m (why_op (l_why m) o)) it with
       | (Bad t, m') => (Bad t, m')
       | (Ok, m1) =>
           if negb (c_cb c) then (Ok, m1)
@@ -93,11 +135,11 @@ Definition mstep29 (c : cfg) (m : mon29) (o : lop) (r : lout) : verdict * mon29 
             match o with
             | Adv _ _ =>
                 if has_ce29 it
-                then (if is_requested29 (l_phase m1) then (Ok, mk29 (l_phase m1) (l_closed m1) true) else (Bad 6, m1))
+                then (if is_requested29 (l_phase m1) then (Ok, mk29 (l_phase m1) (l_closed m1) true fresh_why) else (Bad 6, m1))
                 else (Ok, m1)
             | _ =>
                 if l_link m1 && has_adv29 it then
-                  (if is_idle29 (l_phase m1) then (Ok, mk29 LIdle (l_closed m1) false) else (Bad 3, m1))
+                  (if is_idle29 (l_phase m1) then (Ok, mk29 LIdle (l_closed m1) false (l_why m1)) else (Bad 3, m1))
                 else
                   match o with
                   | Ev _ _ => if l_link m1 && is_requested29 (l_phase m1) then (Bad 7, m1) else (Ok, m1)
